@@ -915,6 +915,20 @@ func freshSlice(c *Ctx, v ssa.Value, d int) (bool, string) {
 			}
 		}
 		return true, "all phi inputs fresh"
+	case *ssa.Extract:
+		if cl, ok := x.Tuple.(*ssa.Call); ok {
+			if cal := staticCallee(cl); cal != nil && IsRepoFunc(cal) && cal.Blocks != nil {
+				for _, b := range cal.Blocks {
+					if r, ok := b.Instrs[len(b.Instrs)-1].(*ssa.Return); ok && len(r.Results) > x.Index {
+						if ok, why := freshSlice(c, r.Results[x.Index], d+1); !ok {
+							return false, why
+						}
+					}
+				}
+				return true, "result of " + FuncName(cal)
+			}
+		}
+		return false, "result of a call"
 	case *ssa.Parameter:
 		return false, fmt.Sprintf("parameter %s of %s", x.Name(), FuncName(x.Parent()))
 	case *ssa.Call:
@@ -946,6 +960,32 @@ func freshSlice(c *Ctx, v ssa.Value, d int) (bool, string) {
 			if n, fl, _, _ := loadedField(x); n != nil {
 				return false, "field " + n.Obj().Name() + "." + fl
 			}
+			// a local variable kept in a cell (a named result): everything stored into it is fresh, or is the
+			// variable itself grown by append
+			if al, ok := x.X.(*ssa.Alloc); ok {
+				n := 0
+				for _, r := range refs(al) {
+					st, isS := r.(*ssa.Store)
+					if !isS || st.Addr != ssa.Value(al) {
+						continue
+					}
+					n++
+					val := st.Val
+					if cl, isC := val.(*ssa.Call); isC {
+						if bi, isB := cl.Call.Value.(*ssa.Builtin); isB && bi.Name() == "append" {
+							if ld, isL := cl.Call.Args[0].(*ssa.UnOp); isL && ld.Op == token.MUL && ld.X == ssa.Value(al) {
+								continue
+							}
+						}
+					}
+					if ok, why := freshSlice(c, val, d+1); !ok {
+						return false, why
+					}
+				}
+				if n > 0 {
+					return true, "local variable, fresh on every assignment"
+				}
+			}
 		}
 	}
 	return false, fmt.Sprintf("%T", v)
@@ -955,6 +995,12 @@ func freshSliceNoPhi(c *Ctx, v ssa.Value, phi *ssa.Phi, d int) (bool, string) {
 	// a slice of the phi itself (data = data[n:]) is as fresh as the phi
 	if sl, ok := v.(*ssa.Slice); ok && sl.X == ssa.Value(phi) {
 		return true, "self"
+	}
+	// the phi itself grown by append (a loop that collects into it)
+	if cl, ok := v.(*ssa.Call); ok {
+		if bi, isB := cl.Call.Value.(*ssa.Builtin); isB && bi.Name() == "append" && len(cl.Call.Args) > 0 && cl.Call.Args[0] == ssa.Value(phi) {
+			return true, "self"
+		}
 	}
 	return freshSlice(c, v, d)
 }
